@@ -419,6 +419,71 @@ func runC18(c *engine.Ctx) {
 				c.Fail("C18.loadkey-select", "wrong key: "+classifySet(len(set), len(cands), anyValid, req), "LoadKey returned key %q (id %q) which is not a valid key with the requested id: %s", tag, lk.KeyID(), setDesc)
 			}
 		}
+		// a second version of the file, same path and same length (ids rotated a->b->c->a), written right
+		// after the first load: LoadKey must answer from the file as it is now
+		if len(set) > 0 {
+			rot := map[string]string{"a": "b", "b": "c", "c": "a", "": ""}
+			var objs2 []map[string]any
+			set2 := make([]setKey, len(set))
+			for i, k := range set {
+				o := map[string]any{}
+				for kk, vv := range k.obj {
+					o[kk] = vv
+				}
+				if k.id != "" {
+					o["kid"] = rot[k.id]
+				}
+				objs2 = append(objs2, o)
+				set2[i] = setKey{id: rot[k.id], valid: k.valid, obj: o, desc: k.desc}
+			}
+			content2 := writeJWKS(path, objs2)
+			if len(content2) == len(content) {
+				os.WriteFile(path, content2, 0o644)
+				var lk2 jwk.Key
+				var lerr2 error
+				c.Guard("C18.panic", "LoadKey after same-size rewrite", func() { lk2, lerr2 = jwkutil.LoadKey(path, req) })
+				var cands2 []setKey
+				if req == "" {
+					if len(set2) == 1 {
+						cands2 = set2
+					}
+				} else {
+					for _, k := range set2 {
+						if k.id == req {
+							cands2 = append(cands2, k)
+						}
+					}
+				}
+				anyValid2, allValid2 := false, true
+				for _, k := range cands2 {
+					if k.valid {
+						anyValid2 = true
+					} else {
+						allValid2 = false
+					}
+				}
+				if (len(cands2) == 0 || !anyValid2) && lerr2 == nil {
+					c.Fail("C18.loadkey-select", "stale answer after the file was rewritten (same path, same size)", "the file now holds ids rotated a->b->c->a; LoadKey(id=%q) succeeded (returned id %q) although no valid key matches any more: %s", req, lk2.KeyID(), setDesc)
+				}
+				if len(cands2) > 0 && allValid2 && lerr2 != nil {
+					c.Fail("C18.loadkey-select", "stale answer after the file was rewritten (same path, same size)", "the file now holds ids rotated a->b->c->a; LoadKey(id=%q) failed with %v although the requested key is now present and valid: %s", req, lerr2, setDesc)
+				}
+				if lerr2 == nil && lk2 != nil {
+					ro, _ := jwkObject(lk2)
+					tag, _ := ro["x-bksim"].(string)
+					ok := false
+					for _, k := range cands2 {
+						if k.obj["x-bksim"] == tag && k.valid {
+							ok = true
+						}
+					}
+					if !ok {
+						c.Fail("C18.loadkey-select", "stale answer after the file was rewritten (same path, same size)", "after the rewrite LoadKey(id=%q) returned key %q with id %q, which is not what the file holds now: %s", req, tag, lk2.KeyID(), setDesc)
+					}
+				}
+				c.Probe("same_size_rewrites_checked")
+			}
+		}
 	} else if lerr == nil {
 		// under faults: fails, or has the requested id and satisfies the table
 		if lk == nil {
